@@ -27,6 +27,8 @@ for pid in sys.argv[1:]:
         mod.prepare(ctx)
     else:
         vc.build_harness(pid.lower())
+    for feat in getattr(mod, "SETUP_FEATURE_BUILDS", []):
+        vc.build_harness(pid.lower(), features=feat)          # feature variants a check builds on demand
     if getattr(mod, "RELEASE_TOO", False):
         vc.build_harness(pid.lower(), release=True)      # the release-profile pass of ./check
     print("built", pid)
